@@ -23,12 +23,13 @@ from rpv.workload import matcher_cases
 PROPERTY_ID = "C02"
 LEVEL = "exploration"
 RULE = (
-    "valid generated histories (same mix as C01) x methods/schedules must succeed with exact per-event coverage and no "
+    "valid generated histories (same mix as C01) x methods/schedules, also limited by to-dates (clean cuts and cuts between own dates whose order is the reverse of the instants': matching covers all history, so the run must succeed), must succeed with exact per-event coverage and no "
     "lot overspent at any prefix; their over-spending mutants (inflated disposal, deleted lot, disposal moved before its "
     "funding - also transient overspends refilled later) must raise whenever cumulative disposals exceed cumulative "
     "lots at some instant, with and without -n; every valid history extended by final disposals of each account's whole "
     "balance must succeed and leave every lot exactly exhausted. Non-trivial = a disposal spanning >= 2 lots, or a "
-    "must-fail mutant, or a sell-everything extension; distinct = hash of (history, schedule, mode)"
+    "must-fail mutant, or a sell-everything extension; distinct = hash of (history, schedule, mode). "
+    "The repository's own example inputs (input/*.ods read independently of RP2's parser, every method and the config's schedule, -n) are part of the workload"
 )
 ASSUMPTIONS = [
     "which error is raised on overspend is not constrained",
